@@ -79,6 +79,11 @@ def own_leaf_only(proof):
 
 def run(ctx):
     proof = own_leaf_only(vlib.coq_prove(ctx, FILES))
+    # a value that is trivially destructible but not bitwise-relocatable (it points to itself) must survive moves of its holder
+    nself = vlib.fixed_probe(ctx, 'anydata_selfref.cpp', 'selfref all ok',
+                             [('g++', 'c++11', '-O1'), ('clang++', 'c++17', '-O2')] + ([('g++', 'c++20', '-O2'), ('clang++', 'c++11', '-O0')] if ctx.tier == 'thorough' else []),
+                             'AnyData moves a trivially destructible, self-referential value bitwise')
+    ctx.coverage['selfref_probe_builds'] = nself
     caps = ad.CAPS if ctx.tier == 'thorough' else ad.CAPS
     bins, errors = ad.build(ctx, caps)
     sha = vlib.sha(os.path.join(vlib.REPO, 'include/eventpp/utilities/anydata.h'))
